@@ -384,3 +384,123 @@ def vc_encode(H):
                        meta={'got': repr(norm(r))[:400], 'expected': repr(norm(exp))[:400]})
             return r
         H.run_paths(fe, sc, body)
+
+
+def vc_codegen_sqrt(H):
+    """codegen_sqrt (Study-number square root, https://doi.org/10.1002/mma.8639): for x = a + bI (a = scalar part,
+    bI = x - a the whole non-scalar part)  sqrt(x) = c + bI/(2c),  c = sqrt((a + sqrt(a^2 - (bI)^2))/2)   [c = sqrt(a) when (bI)^2 == 0].
+    Checked: (i) the operator tree of a, bI, bI*bI, normS = (a*a - bI*bI).e, dI = bI * c2_inv, res = c + dI;
+    (ii) the two dependency texts, parsed with Python's parser and evaluated: c^2 == (a + sqrt(normS))/2 and c2_inv * 2c == 1,
+    with str() of the symbolic scalars substituted by sums (so missing parentheses show up, finding F6);
+    (iii) argument binding and result dict."""
+    import ast as _ast
+    fuc = H.fn(CG, 'codegen_sqrt')
+    for case in ('study', 'null-part', 'scalar'):
+        def body(ctx, case=case):
+            ops = []
+
+            def mk(name, attrs=None, truth=None):
+                r = sym(name, attrs=attrs or {}, truth=True if truth is None else truth)
+
+                def binop(interp, op, other, reflected):
+                    a_, b_ = (other, r) if reflected else (r, other)
+                    res = mk(f'({getattr(a_, "label", a_)} {op} {getattr(b_, "label", b_)})')
+                    res.tree = ('binop', op, getattr(a_, 'tree', a_), getattr(b_, 'tree', b_))
+                    return res
+                r.kvc_binop = binop
+                r.label = name
+                r.tree = name
+                r.attrs['items'] = sym('items', callable_result=lambda i, m, a, k, r=r: [('ITEMS-OF', r)])
+                return r
+            alg = sym('algebra')
+            scal = {}
+
+            def scalar(interp, me, a, k):
+                nm = k.get('name')
+                s = mk(nm, attrs={'values': sym('v', callable_result=lambda i, m, a2, k2, nm=nm: [f'SYM_{nm}'])})
+                scal[nm] = s
+                return s
+            alg.attrs['scalar'] = sym('alg.scalar', callable_result=scalar)
+            x = mk('x', attrs={'algebra': alg, 'grades': (0,) if case == 'scalar' else (0, 2),
+                               'values': sym('x.values', callable_result=lambda i, m, a, k: 'XVALS')})
+            x.attrs['e'] = 'XE'                                              # the operand holds fresh symbols: its coefficients print as atoms
+            g0 = mk('x.grade(0)')
+            g0.attrs['e'] = 'AE'
+            x.attrs['grade'] = sym('x.grade', callable_result=lambda i, m, a, k: g0 if tuple(a) == (0,) else mk('x.grade(?)'))
+            state = {}
+            real_binop = x.kvc_binop
+
+            def xbin(interp, op, other, reflected):
+                r = real_binop(interp, op, other, reflected)
+                if op == 'Sub' and other is g0 and not reflected:
+                    state['bI'] = r
+                    rb = r.kvc_binop
+
+                    def bibin(interp2, op2, other2, refl2):
+                        q = rb(interp2, op2, other2, refl2)
+                        if op2 == 'Mult' and other2 is r:
+                            q.truth = (case != 'null-part')              # bI*bI is the zero multivector or not
+                            state['bIsq'] = q
+                        return q
+                    r.kvc_binop = bibin
+                return r
+            x.kvc_binop = xbin
+            # (a*a - bI*bI).e
+            ga = g0.kvc_binop
+
+            def g0bin(interp, op, other, reflected):
+                q = ga(interp, op, other, reflected)
+                if op == 'Mult' and other is g0:
+                    qb = q.kvc_binop
+
+                    def aabin(i2, op2, o2, r2):
+                        z = qb(i2, op2, o2, r2)
+                        z.attrs['e'] = 'NS0 + NS1'
+                        state['normS_tree'] = z.tree
+                        return z
+                    q.kvc_binop = aabin
+                return q
+            g0.kvc_binop = g0bin
+            warn = sym('warnings', attrs={'warn': sym('warn', callable_result=lambda i, m, a, k: None)})
+            LI = lambda **kw: ('LambdifyInput', kw)
+            env = {'warnings': warn, 'LambdifyInput': LI, '_type_id': sym('_type_id', callable_result=lambda i, m, a, k: 'T')}
+            r = H.closure(Interp(ctx, source_name=CG), fuc, env)(x)
+            if case == 'scalar':
+                ok = isinstance(r, dict) and list(r) == [0] and isinstance(r[0], str)
+                ctx.oblige('sqrt of a scalar: {0: text}', bool(ok))
+                if ok:
+                    v = eval(compile(_ast.parse(r[0], mode='eval'), '<s>', 'eval'), {'XE': 9.0})
+                    ctx.oblige('sqrt of a scalar: text evaluates to sqrt(x.e)', abs(v - 3.0) < 1e-12, meta={'text': r[0]})
+                return r
+            ok = isinstance(r, tuple) and r[0] == 'LambdifyInput'
+            ctx.oblige('returns a LambdifyInput', bool(ok))
+            if not ok:
+                return r
+            kw = r[1]
+            bI = state.get('bI')
+            ctx.oblige('bI is the whole non-scalar part: x - x.grade(0)', bI is not None and bI.tree == ('binop', 'Sub', 'x', 'x.grade(0)'))
+            deps = kw.get('dependencies') or []
+            ctx.oblige('two dependencies: c and c2_inv', len(deps) == 2 and deps[0][0] == 'SYM_c' and deps[1][0] == 'SYM_c2_inv', meta={'deps': repr(deps)[:300]})
+            if len(deps) != 2:
+                return r
+            envv = {'AE': 3.0, 'NS0': 3.0, 'NS1': 1.0}                    # a.e = 3, normS = NS0 + NS1 = 4 (prints as a sum)  ->  c^2 = (3 + 2)/2
+            try:
+                c = eval(compile(_ast.parse(deps[0][1], mode='eval'), '<c>', 'eval'), dict(envv))
+                c2 = eval(compile(_ast.parse(deps[1][1], mode='eval'), '<c2>', 'eval'), dict(envv))
+            except Exception as e:
+                ctx.oblige('dependency texts are valid expressions', False, meta={'error': repr(e)})
+                return r
+            if case == 'study':
+                ctx.oblige('normS == (a*a - bI*bI).e', state.get('normS_tree') == ('binop', 'Sub', ('binop', 'Mult', 'x.grade(0)', 'x.grade(0)'),
+                                                                                      ('binop', 'Mult', bI.tree, bI.tree)), meta={'got': repr(state.get('normS_tree'))})
+                ctx.oblige('c^2 == (a + sqrt(normS)) / 2 (texts evaluated with a.e and normS printing as sums)', abs(c * c - 2.5) < 1e-12, meta={'text': deps[0][1]})
+            else:
+                ctx.oblige('(bI)^2 == 0: c == sqrt(a)', abs(c * c - 3.0) < 1e-12, meta={'text': deps[0][1]})
+            ctx.oblige('c2_inv == 1 / (2c)', abs(c2 * 2 * c - 1.0) < 1e-12, meta={'text': deps[1][1]})
+            # result c + bI * c2_inv
+            ed = kw.get('expr_dict')
+            tree = ed.get('ITEMS-OF').tree if isinstance(ed, dict) and 'ITEMS-OF' in ed else None
+            ctx.oblige('result expressions are those of c + bI * c2_inv', tree == ('binop', 'Add', 'c', ('binop', 'Mult', bI.tree, 'c2_inv')), meta={'got': repr(tree)})
+            ctx.oblige("args bind x to its values", kw.get('args') == {'x': 'XVALS'})
+            return r
+        H.run_paths(fuc, case, body)
